@@ -610,6 +610,38 @@ def prop_c18(prop, tier, seed, verdict, tree):
                 reports += 1
                 k = san_key(res.stderr_tail)
                 verdict.violation(k or "process-died|%s|rc=%s" % (item[2], res.rc), "sanitizer report in %s: %s" % (item[2], res.stderr_tail[-1500:]))
+        # the repository's guarded hook (-DFFSM2_VERIF): every index handed to a fixed-size container of the library is
+        # checked against the container's size - accesses that stay inside the enclosing object are invisible to ASan
+        hbuilt = r.build_many(cfgs, variant, flags=BASE_FLAGS + ["-DFFSM2_VERIF"], tag="-hook")
+        jobs = [(c, b.path, ["--cases", str(max(50, int(cases_for(tier, 3000, 60000) * c.get("scale", 1.0)))), "--ops", "24"]) for c, b in hbuilt]
+        res = r.run_jobs(jobs, timeout=1800)
+        r.stats["bounds_hook_runs"] = r.stats.get("bounds_hook_runs", 0) + len(res)
+        hook_other = []
+        for n, h in ([(3, 1), (33, 0), (128, 1), (255, 0)] if tier == "quick" else [(1, 0), (3, 1), (33, 0), (64, 1), (127, 0), (128, 1), (129, 0), (254, 1), (255, 0), (255, 1)]):
+            hook_other.append(("widemon.cpp", ["-DWIDE_N=%d" % n, "-DWIDE_HEAD=%d" % h], "widemon-%d-%d" % (n, h), ["--prop", "ALL"]))
+        for n, h, cap in ([(9, 1, 0), (33, 0, 40), (128, 1, 3), (255, 0, 0), (255, 1, 0)] if tier == "quick" else [(4, 0, 0), (9, 1, 0), (33, 0, 40), (65, 1, 3), (128, 1, 3), (129, 0, 254), (254, 1, 0), (255, 0, 0), (255, 1, 0), (255, 0, 254)]):
+            hook_other.append(("wideplan.cpp", ["-DWIDE_N=%d" % n, "-DWIDE_HEAD=%d" % h, "-DWIDE_CAP=%d" % cap], "wideplan-%d-%d-%d" % (n, h, cap), ["--prop", "ALL"]))
+
+        def build_run_hook(item):
+            src, defs, name, args = item
+            b = C.build(tree, src, ["-O0", "-DFFSM2_VERIF"] + defs, variant=variant, name=name + "-hook")
+            if not b.ok:
+                return item, b, None
+            return item, b, C.run_monitor([b.path, "--tier", tier, "--seed", str(seed)] + args, timeout=3600)
+
+        for item, b, res1 in C.parallel(build_run_hook, hook_other):
+            if not b.ok:
+                verdict.harness_error("hook build of %s failed: %s" % (item[2], b.log[-300:]))
+                continue
+            if res1.timed_out:
+                verdict.harness_error("%s with the bounds hook timed out (inconclusive)" % item[2])
+                continue
+            r.stats["bounds_hook_runs"] = r.stats.get("bounds_hook_runs", 0) + 1
+            if res1.rc != 0:
+                verdict.violation("process-died|%s-hook|rc=%s" % (item[2], res1.rc), "%s (bounds hook build) ended rc=%s: %s" % (item[2], res1.rc, res1.stderr_tail[-800:]))
+            for v in res1.viols:
+                if v.get("prop") == "C18":
+                    verdict.violation(v["key"], v.get("msg", ""), prop="C18")
         # allocation counters: operator new / malloc family wrapped; nothing may be called inside FFSM2 scope
         abuilt = r.build_many(cfgs, variant, flags=BASE_FLAGS + ["-DVERIF_COUNT_ALLOCS"], tag="-alloc",
                               link=["-Wl,--wrap=malloc,--wrap=calloc,--wrap=realloc,--wrap=free"])
